@@ -89,7 +89,7 @@ pub fn set_constructor(
             let mut set = set_obj.borrow_mut();
             if let ExoticObject::Set { ref mut entries } = set.exotic {
                 for value in items {
-                    entries.insert(JsMapKey(value));
+                    entries.insert(JsMapKey::for_insert(value));
                 }
                 let len = entries.len();
                 set.set_property(size_key, JsValue::Number(len as f64));
@@ -118,7 +118,7 @@ pub fn set_add(
     let mut set = set_obj.borrow_mut();
 
     if let ExoticObject::Set { ref mut entries } = set.exotic {
-        entries.insert(JsMapKey(value));
+        entries.insert(JsMapKey::for_insert(value));
         let len = entries.len();
         set.set_property(size_key, JsValue::Number(len as f64));
     }
